@@ -713,8 +713,14 @@ impl Quil for Expression {
                 expression,
             }) => {
                 write!(f, "{operator}")?;
-                if let Prefix(_) = expression.as_ref() {
-                    // Consecutive prefix operators (e.g. `--pi`) do not parse
+                // Consecutive prefix operators (e.g. `--pi`) do not parse, and neither does a
+                // prefix operator followed by the sign of a negative literal (e.g. `--1`)
+                let starts_with_sign = match expression.as_ref() {
+                    Prefix(_) => true,
+                    Number(value) => format_complex(value).starts_with('-'),
+                    _ => false,
+                };
+                if starts_with_sign {
                     write!(f, "(")?;
                     expression.write(f, fall_back_to_debug)?;
                     write!(f, ")").map_err(Into::into)
